@@ -14,6 +14,7 @@ type Finding struct {
 }
 
 type ctx struct {
+	hidden   map[string]bool // (method, pattern) of the mounted operations the description marks openapi:generate=false
 	md       *MDesign
 	findings []Finding
 	counts   map[string]int
@@ -151,7 +152,9 @@ func (c *ctx) compareOps(ver string, doc, srv []Op, strictV2 bool) {
 		if _, ok := sm[o.Key()]; ok {
 			continue
 		}
-		if strings.Contains(o.RawPath, "{*") {
+		if c.hidden[o.Key()] {
+			c.fail(ver+"-op-listed-despite-openapi-generate-false", fmt.Sprintf("%s lists %s %s although its service, method or file server carries openapi:generate=false", ver, o.Method, o.RawPath))
+		} else if strings.Contains(o.RawPath, "{*") {
 			c.fail(ver+"-op-extra:wildcard-kept-in-path-key", fmt.Sprintf("%s lists %s %s: the path key keeps the {*name} form, which is not a path template", ver, o.Method, o.RawPath))
 		} else {
 			c.fail(ver+"-op-extra", fmt.Sprintf("%s lists %s %s which the generated server does not mount", ver, o.Method, o.RawPath))
